@@ -56,6 +56,8 @@ func init() {
 }
 
 func runC12(c *Ctx, r *Report) {
+	r.Rule("C12/explicit-matcher", "the exact echo matcher tests that the search window contains the input", 1)
+	checkExplicitMatcherArgs(c, r, "C12/explicit-matcher")
 	r.Rule("C12/search-window", "expected-response and prompt searches look at a suffix of the buffer that starts on a line boundary (else a line tail ending in 'password:' makes the secret be typed unasked)", 4)
 	importObligations(r, func(sub *Report) { checkSearchDepth(c, sub) }, "C01/search-depth", "C12/search-window")
 	r.Rule("C12/priv-steps-plain", "escalate / deescalate send their command with no per-operation options (the send waits for the following prompt)", 2)
